@@ -10,7 +10,7 @@ import time
 VERIF = os.path.dirname(os.path.dirname(os.path.abspath(__file__)))
 
 
-def run_driver(unit, prop, repo, scratch, tier, driver, args_quick, args_thorough, function, what, timeout=1500):
+def run_driver(unit, prop, repo, scratch, tier, driver, args_quick, args_thorough, function, what, timeout=1500, rustflags=None, profile='release'):
     t0 = time.time()
     r = dict(unit=unit.name, kind='bounded', status='ok', undecided=[], failures=[], per_fn=[], samples=[],
              obligations=0, discharged=0, assumption_texts=[], bounded=[], wall_s=0.0)
@@ -32,17 +32,20 @@ def run_driver(unit, prop, repo, scratch, tier, driver, args_quick, args_thoroug
         tdir = os.path.join(VERIF, '.cache', 'target-' + driver)
         os.makedirs(tdir, exist_ok=True)
     env = dict(os.environ, CARGO_NET_OFFLINE='true', CARGO_TARGET_DIR=tdir)
-    b = subprocess.run(['cargo', 'build', '--release', '--offline'], cwd=d, env=env, capture_output=True, text=True)
+    if rustflags:
+        env['RUSTFLAGS'] = rustflags
+    build = ['cargo', 'build', '--offline'] + (['--release'] if profile == 'release' else [])
+    b = subprocess.run(build, cwd=d, env=env, capture_output=True, text=True)
     if b.returncode != 0:
         # a lock file that does not fit the driver: retry without it
         if os.path.exists(os.path.join(d, 'Cargo.lock')):
             os.remove(os.path.join(d, 'Cargo.lock'))
-            b = subprocess.run(['cargo', 'build', '--release', '--offline'], cwd=d, env=env, capture_output=True, text=True)
+            b = subprocess.run(build, cwd=d, env=env, capture_output=True, text=True)
     if b.returncode != 0:
         r['status'] = 'undecided'
         r['undecided'].append('driver %s does not build against this tree: %s' % (driver, b.stderr[-800:]))
         return r
-    exe = os.path.join(tdir, 'release', driver + '_driver')
+    exe = os.path.join(tdir, 'release' if profile == 'release' else 'debug', driver + '_driver')
     args = args_thorough if tier == 'thorough' else args_quick
     cmd = [exe] + [str(a) for a in args]
     try:
